@@ -7,6 +7,9 @@ import PdfModel.Model.PageTreeDerived
 
   c07.bytes <nq> <hex file> [@tag]     the byte-level composition: `PageTreeB.openPagesB` (open path, resolver, parser
                                         models, node reader) then `getPage` for i < nq; same answer format
+  c07.agree <hex file> [@tag]          `1` iff on every page-tree object of the file the derived readers yield the node the
+                                        hand-written `nodeOf` yields (the hypothesis `DerivedAgrees` of `page_nth_bytes_partial2`,
+                                        evaluated), else `0 <object numbers>`
   c07.bytesd <nq> <hex file> [@tag]    the same with the *derived* node readers (`PageTreeB.openPagesBD`: /Type dispatch over the
                                         generated schemas of `Page` / `PageTree`, parent chains loaded through the resolver)
   c07.tree <root> <nq> <objs> [@<stream>/<seed>/<case>]      (the last field is a replay tag, ignored)
@@ -54,6 +57,26 @@ def showPage : Out Leaf → String
 
 def handle (args : List String) : String :=
   match args with
+  | ["c07.agree", file, _tag] => handle ["c07.agree", file]
+  | ["c07.agree", file] =>
+    match bytesOfHex file with
+    | some bs =>
+      let env : PdfLex.Env (List UInt8) :=
+        { parseReal := fun t => some t, resolveLen := fun _ _ => .err, allowMissingEndobj := false, decrypt := none, fileOffset := 0 }
+      let dec : PdfLex.Dict (List UInt8) → List UInt8 → Out (List UInt8) :=
+        fun d raw => match PdfLex.dictGet d OpenBytes.kFilter with | none => .ok raw | some _ => .err
+      match OpenBytes.openB env (3 * bs.length + 64) dec 64 bs with
+      | .ok (start, t, _) =>
+        let a := PageTreeB.tblB PageTreeB.nodeOf env (3 * bs.length + 64) dec 16 bs start t
+        let b := PageTreeB.tblBD (fun _ => 0) env (3 * bs.length + 64) dec 16 bs start t
+        -- objects that are page-tree nodes for the hand-written reader: the derived readers must yield the same node
+        let bad := (List.range t.length).filter fun id =>
+          match a id with
+          | some (.page _ _) | some (.pages _ _ _ _) => decide (a id ≠ b id)
+          | _ => false
+        if bad.isEmpty then "1" else s!"0 {joinWith "," (bad.map toString)}"
+      | o => s!"open={o.tag}"
+    | none => "bad-request"
   | ["c07.bytesd", nq, file, _tag] => handle ["c07.bytesd", nq, file]
   | ["c07.bytesd", nq, file] =>
     match natOf nq, bytesOfHex file with
